@@ -26,7 +26,7 @@ type FakeRelay struct {
 	Fault   func(op string, sid string, n int) RelayFault // consulted for every send / recv
 	counts  map[string]int
 	Latency time.Duration
-	FailDel int  // the next FailDel DelCipherBox calls fail with Unavailable
+	FailDel int // the next FailDel DelCipherBox calls fail with Unavailable
 	// HoldKey: sends into this mailbox block (back pressure) until the stream's context ends
 	// or the hold is lifted; held counts the sends currently blocked
 	HoldKey string
@@ -78,6 +78,10 @@ type RelayFault struct {
 	Drop      bool          // the message is accepted and lost
 	Delay     time.Duration // extra delivery delay
 	StreamErr bool          // the stream operation fails (the caller re-establishes the stream)
+	// Ambiguous (with StreamErr): the operation fails although the relay has done its part - a
+	// send is queued and then reported as failed, a receive takes the head of the queue for this
+	// stream and the message is lost with the stream
+	Ambiguous bool
 }
 
 type RelayEvent struct {
@@ -250,6 +254,13 @@ func (s *fakeSendStream) Send(box *hashmailrpc.CipherBox) error {
 	f := r.fault("send", k)
 	if f.StreamErr {
 		r.log("send-err", k, nil)
+		if f.Ambiguous {
+			b.q = append(b.q, relayMsg{append([]byte(nil), box.Msg...), time.Now().Add(r.Latency)})
+			select {
+			case b.notify <- struct{}{}:
+			default:
+			}
+		}
 		r.mu.Unlock()
 		return status.Error(codes.Unavailable, "transport is closing")
 	}
@@ -349,6 +360,9 @@ func (s *fakeRecvStream) Recv() (*hashmailrpc.CipherBox, error) {
 			f := r.fault("recv", s.k)
 			if f.StreamErr {
 				r.log("recv-err", s.k, nil)
+				if f.Ambiguous {
+					b.q = b.q[1:]
+				}
 				b.occupied = false
 				r.mu.Unlock()
 				s.done = true
